@@ -1114,7 +1114,7 @@ func func_Select(rtParams FunctionParameterTypes, val any) (any, error) {
 		orderedMapValues := v.MapKeys()
 		// Sort the keys to ensure deterministic output.
 		sort.Slice(orderedMapValues, func(i, j int) bool {
-			return orderedMapValues[i].String() < orderedMapValues[j].String()
+			return fmt.Sprint(orderedMapValues[i].Interface()) < fmt.Sprint(orderedMapValues[j].Interface())
 		})
 
 		for _, key := range orderedMapValues {
